@@ -39,6 +39,10 @@ def gen_string(cls, rng, n):
         return "  \t%s with edges \t  " % tok
     if cls == "dollarInside":
         return "US$ %d $x %s$" % (n, tok)
+    if cls == "percent":
+        return rng.choice(["100%% sure %s", "50%%%% off %d items", "%s%v%d%q %%", "load 99.9%% (%x)", "a%20b%2Fc %!s(MISSING)"]) + " " + tok
+    if cls == "priorCiphertext":
+        return PRIOR[n % len(PRIOR)] if PRIOR else "bm8gcHJpb3IgY2lwaGVydGV4dA=="
     if cls == "date":
         return "20%02d-0%d-1%dT0%d:34:56.%03dZ" % (n % 90 + 10, n % 9 + 1, n % 9, n % 9, n % 1000)
     if cls == "oid":
@@ -46,6 +50,9 @@ def gen_string(cls, rng, n):
     if cls == "bindata":
         return base64.b64encode(("bytes %d \x00\xff" % n).encode("latin-1")).decode()
     raise ValueError(cls)
+
+
+PRIOR = []      # ciphertexts produced by an earlier `redact --encrypt` run under the key file of this run
 
 
 def wrap(cls, s):
@@ -214,6 +221,21 @@ def run(tier):
         bad_sc = pick
     nstr = 3 if tier == "quick" else 8
     wd = tempfile.mkdtemp(prefix="c09-", dir=b.root)
+    # an earlier run under the same key file: its ciphertexts become sensitive strings of this run (class priorCiphertext)
+    k1, k2 = os.path.join(wd, "k1.key"), os.path.join(wd, "k2.key")
+    first = []
+    for j in range(12):
+        line, path = line_for("filterField", "earlier secret %d %s" % (j, "é" * (j % 3)), 90000 + j)
+        first.append((line, path))
+    p0in = os.path.join(wd, "first.log")
+    open(p0in, "w", encoding="utf-8").write("\n".join(json.dumps(l, ensure_ascii=False, separators=(",", ":")) for l, _ in first) + "\n")
+    p0 = common.run_cli(b, ["redact", p0in, "-o", os.path.join(wd, "first.out"), "--encrypt", "-q", k1], cwd=wd)
+    del PRIOR[:]
+    if p0.returncode == 0:
+        for l, (_, path) in zip(open(os.path.join(wd, "first.out"), encoding="utf-8"), first):
+            node = jsonx.get(jsonx.parse(l), path)
+            if node and node[0] == 'str':
+                PRIOR.append(node[1])
     cases = []
     for s in ok_sc + bad_sc:
         for j in range(nstr if s["ok"] else 1):
@@ -225,7 +247,6 @@ def run(tier):
     data = "\n".join(json.dumps(c["line"], ensure_ascii=False, separators=(",", ":")) for c in cases) + "\n"
     inp = os.path.join(wd, "in.log")
     open(inp, "w", encoding="utf-8").write(data)
-    k1, k2 = os.path.join(wd, "k1.key"), os.path.join(wd, "k2.key")
     outp = os.path.join(wd, "out.log")
     p = common.run_cli(b, ["redact", inp, "-o", outp, "--encrypt", "-q", k1], cwd=wd)
     if p.returncode != 0:
@@ -287,7 +308,7 @@ def run(tier):
         v.nontrivial((s["cls"], s["slot"], s["keyrel"], s["alt"]))
         rep.update({"ciphertext": ct[:200], "value_given_to_decrypt": value[:200], "exit": rc, "stdout": so.decode("utf-8", "replace")[-600:], "stderr": se.decode("utf-8", "replace")[:300]})
         marker = b"Raw value: "
-        if s["cls"] in ("unicode", "emailMixed") or s["alt"] == "flipMiddle":
+        if s["cls"] in ("unicode", "emailMixed", "priorCiphertext") or s["alt"] == "flipMiddle":
             v.sample({"scenario": s, "original": c["text"][:120], "ciphertext_in_output": ct[:120], "value_given_to_decrypt": value[:120], "decrypt_exit": rc,
                       "decrypt_stdout_tail": so.decode("utf-8", "replace")[-160:]}, limit=3)
         if s["ok"]:
